@@ -395,6 +395,17 @@ class Transformer:
         n.keywords = [k for k in n.keywords if not k.arg] + [ast.keyword(arg=None, value=ast.Dict(keys=[ast.Constant(value=k.arg) for k in named], values=[k.value for k in named]))]
         return "kw_unpack"
 
+    def t_kw_star_first(self, tree):
+        """a `**mapping` expansion in FRONT of (or between) the named keywords: valid since PEP 448, and the named keywords after it count as before (seeded changes
+        C15-m18 / C16-m17 stopped reading keywords at the first expansion)"""
+        c = [n for n in self._calls(tree) if any(k.arg for k in n.keywords)]
+        if not c:
+            return None
+        n = self.r.choice(c)
+        pos = self.r.randint(0, max(0, len(n.keywords) - 1))
+        n.keywords.insert(pos, ast.keyword(arg=None, value=ast.Name(id="opts_", ctx=ast.Load())))
+        return "kw_star_first"
+
     def t_kw_rename(self, tree):
         c = [n for n in self._calls(tree) if any(k.arg for k in n.keywords)]
         if not c:
@@ -682,7 +693,12 @@ SWEEP_KINDS = ["'lit'", "b'by'", "b'\\\\'", "b'C:\\\\Users\\\\me\\\\'", "b'\\\\x
                "f'{x_}'", "lambda: 0", "*rest_", "[i for i in y_]", "(w_ := 3)", "a_[0]", "-1", "...",
                # an integer literal beyond the interpreter's int -> str digit limit (4300): valid Python, but str() / ast.unparse of it raise (found on the unchanged tree:
                # B103, B609 and B202 formatted such an argument into their messages); alone and inside a list
-               "0x1" + "f" * 4000, "['chmod', 0x1" + "f" * 4000 + ", '*']"]
+               "0x1" + "f" * 4000, "['chmod', 0x1" + "f" * 4000 + ", '*']",
+               # string literals that parsers of other notations choke on (seeded change C06-m18 ran urllib.parse.urlsplit on a literal URL: ValueError on an unbalanced `[`)
+               "'http://[fe80::1%25eth0/status'", "'ftp://[2001:db8::1/dump.tar'", "'%(x'", "'{'", "'{0'", "'\\\\'", "'(?P<'", "'\\x00'", "'a' * 3"]
+
+
+NASTY_QUICK = ["'http://[fe80::1%25eth0/status'", "'%(x'", "'{'", "'\\x00'"]
 
 
 def arg_sweep(repo, kinds=None):
@@ -703,6 +719,8 @@ def arg_sweep(repo, kinds=None):
                 nm = "Constant-" + type(v.value).__name__        # one representative per Python type of constant (str, bytes, int, float, NoneType, bool, ellipsis)
             if len(kind) > 1000:
                 nm += "-huge"
+            if kind in NASTY_QUICK:
+                nm += "-nasty%d" % NASTY_QUICK.index(kind)       # kept apart from the plain string in the quick tier's one-per-kind selection
             reps.append((kind, nm))
     for name, src in seeds(repo):
         tree = ast.parse(src)
